@@ -11,6 +11,8 @@ pub struct Widget(pub u32);
 
 pub struct Extra(pub u32);
 
+pub struct Speed(pub u32);
+
 pub struct Token(pub String);
 
 #[derive(Debug)]
